@@ -382,7 +382,7 @@ class C09Engine(Engine):
                 self.count("fault:" + fault + ":removed")
                 status = "accepted"
         try:
-            self.check_state(ctx)
+            self.check_state(ctx, lookups)
         except Violation as v:
             v.signature = f"state-after-{status}:{e[1] if e[0] != 'accept' else op[0]}"
             raise
